@@ -69,7 +69,11 @@ theorem step_no_wrap_kind_stage (S : Scheme) (r : Record) (op : Op S) (pk : S.PK
 /-- The same, phrased with the update itself: if the update would go through on the same record
     with sequence number 0 (size check before signing not counted: `prepareG … false`), and the
     record it would sign — put back at the old sequence number — is within the size limit, then at
-    `seq = 2^64 - 1` the update fails with exactly `SequenceNumberTooHigh`. -/
+    `seq = 2^64 - 1` the update fails with exactly `SequenceNumberTooHigh`.
+    (The size hypothesis cannot be replaced by "the size check passes at sequence number 0":
+    the sequence number 2^64 - 1 takes 9 bytes, 0 takes 1, and `insert_raw_rlp`/`set_socket`
+    check the size *before* the increment, so a record within 8 bytes of the limit reports
+    `ExceedsMaxSize` first — see `step_no_wrap_errors`.) -/
 theorem step_no_wrap_kind (S : Scheme) (r : Record) (op : Op S) (pk : S.PK) (o : Option Bytes)
     (p : Prepared) (h : r.seq + 1 = 2 ^ 64) (hop : op.isSetSeq = false)
     (hp : prepareG S { r with seq := 0 } op pk false = .ok p)
@@ -116,21 +120,8 @@ example :
     step tinyS rMax (.setUdp4 30303) pk0 (some []) = (.err .seqTooHigh, rMax) := ⟨rfl, rfl⟩
 
 /-- the hypotheses of `step_no_wrap_kind` hold for the valid record `rMax` -/
-example : step tinyS rMax (.setUdp4 30303) pk0 none = (.err .seqTooHigh, rMax) := by
-  cases hp : prepareG tinyS { rMax with seq := 0 } (.setUdp4 30303) pk0 false with
-  | error e => exact absurd hp (by decide)
-  | ok p =>
-    refine step_no_wrap_kind tinyS rMax _ pk0 none p (by decide) rfl hp ?_
-    have : p = ⟨{ rMax with seq := 1, content := withPubkey tinyS
-        (Map.insert rMax.content kUdp (encUint 30303)) pk0 }, prevPort none⟩ := by
-      have h2 : prepareG tinyS { rMax with seq := 0 } (.setUdp4 30303) pk0 false = .ok
-        ⟨{ rMax with seq := 1, content := withPubkey tinyS
-          (Map.insert rMax.content kUdp (encUint 30303)) pk0 }, prevPort none⟩ := rfl
-      rw [h2] at hp
-      simp only [Except.ok.injEq] at hp
-      exact hp.symm
-    subst this
-    decide
+example : step tinyS rMax (.setUdp4 30303) pk0 none = (.err .seqTooHigh, rMax) :=
+  step_no_wrap_kind tinyS rMax _ pk0 none pMax (by decide) rfl pMax_ok (by decide)
 
 #print axioms step_seq_succ
 #print axioms step_setSeq_exact
